@@ -10,6 +10,7 @@ CONSTANTS
  MCRoots = {"x", "y"}
  MCN = 2
  MCSteps = {1}
+ PreFull = TRUE
  MaxCalls = 0
 INVARIANTS SuccessIffFinal StuckStep ReasonOfStep Dependency Participation ObsSane
 CHECK_DEADLOCK FALSE
